@@ -139,5 +139,5 @@ func extendMacroEnv(macro *object.Macro, args []object.Quote) *State {
 		extended.SetNoChecks(param.Value().Literal(), args[paramIdx], true)
 	}
 
-	return &State{env: extended}
+	return &State{env: extended, cache: NewCache()} // a macro body may call (memoizable) functions.
 }
